@@ -325,7 +325,7 @@ def run(ctx):
     _memo(ctx, "R11.8", [p.get_class("wavephysics.balance.source_term.SourceTerm"), p.get_class("wavephysics.balance.balance.SourceTermBalance")], "source-term classes")
     _memo_pos(ctx, "R11.8")
     ctx.require_count("R11.8", 2)
-    ctx.require_count("R11.7", 12)
+    ctx.require_count("R11.7", 7)
     ctx.require_count("R11.1", 1)
     ctx.require_count("R11.2", 9)
     ctx.require_count("R11.3", 9)
